@@ -27,16 +27,17 @@ GRAMMAR_INV = {
     "C20": ["SubstOK"],
 }
 
-def grammar_cfg(e, n, invs, emit=True):
-    return ("CONSTANTS N = %d\nE = \"%s\"\nEmitOn = %s\nINIT Init\nNEXT Next\nCHECK_DEADLOCK FALSE\nINVARIANT %s\n"
-            % (n, e, "TRUE" if emit else "FALSE", " ".join(invs + ["Emit"])))
+def grammar_cfg(e, n, invs, emit=True, sub=None):
+    return ("CONSTANTS N = %d\nE = \"%s\"\nEmitOn = %s\n%sINIT Init\nNEXT Next\nCHECK_DEADLOCK FALSE\nINVARIANT %s\n"
+            % (n, e, "TRUE" if emit else "FALSE", ("K <- %s\n" % sub) if sub else "", " ".join(invs + ["Emit"])))
 
-def run_grammar_models(ctx, evals, n_of, invs, par=3, workers=5):
-    """TLC MCGrammar for each evaluator; returns {e: result} with behaviours in work/<prop>/beh_<e>.ndjson"""
+def run_grammar_models(ctx, evals, n_of, invs, par=3, workers=5, sub=None):
+    """TLC MCGrammar for each evaluator; returns {e: result} with behaviours in work/<prop>/beh_<e>.ndjson
+    (sub: a focused sub-alphabet defined in MCGrammar, e.g. KArgs - longer sequences over fewer kinds; keys <sub>_<e>)"""
     res = {}
     def one(e):
-        beh = os.path.join(ctx.wd, "beh_%s.ndjson" % e)
-        r = vlib.tlc("MCGrammar", grammar_cfg(e, n_of(e), invs), "%s_grammar_%s" % (ctx.prop, e), workers=workers, beh_out=beh,
+        beh = os.path.join(ctx.wd, "beh_%s%s.ndjson" % ((sub + "_") if sub else "", e))
+        r = vlib.tlc("MCGrammar", grammar_cfg(e, n_of(e), invs, sub=sub), "%s_grammar_%s%s" % (ctx.prop, (sub + "_") if sub else "", e), workers=workers, beh_out=beh,
                      timeout=3 * 3600)
         r["beh_path"] = beh
         r["N"] = n_of(e)
@@ -52,8 +53,8 @@ def run_grammar_models(ctx, evals, n_of, invs, par=3, workers=5):
     with cf.ThreadPoolExecutor(max_workers=par) as ex:
         for e, r in ex.map(one, evals):
             vlib.tlc_ok(r, "MCGrammar %s" % e)
-            res[e] = r
-            log("TLC MCGrammar E=%s N=%d: %d states, %d distinct, %d behaviours, %.0fs%s" % (e, r["N"], r["states"], r["distinct"], r["beh"], r["wall_s"],
+            res[("%s_%s" % (sub, e)) if sub else e] = r
+            log("TLC MCGrammar%s E=%s N=%d:" % ((" " + sub) if sub else "", e, r["N"]) + " %d states, %d distinct, %d behaviours, %.0fs%s" % (r["states"], r["distinct"], r["beh"], r["wall_s"],
                 (" VIOLATED " + str(r["violated"])) if r["violated"] else ""))
     return res
 
@@ -70,7 +71,10 @@ ALPHABETS = {
     "ops": ["1", "<", ">", "&", "|", "%", "-", "LFLOOR", "RFLOOR", "LCEIL", "RCEIL", "DEG", "PI_SYM", "w"],
     # superscript runs next to foreign characters (look-alikes of the superscript digits), signs and brackets
     "sup": ["2", "SUP2", "SUP0", "OTHER", "^", "-", "(", ")"],
+    # the two-character operators of eval_i64 and their halves (two characters longer: see ALPHABET_EXTRA)
+    "shift": ["1", "<", ">", "&", "|"],
 }
+ALPHABET_EXTRA = {"shift": 2}
 LEXER_INV = ["Progress", "TokenCount", "FnNeedsParen", "OnlyOffered", "LiteralForm"]
 
 def lexer_cfg(e, k, alphabet, invs, emit=True):
@@ -85,8 +89,9 @@ def run_lexer_models(ctx, evals, names, k, invs=None, par=4, workers=4):
         e, an = arg
         key = "lex_%s_%s" % (e, an)
         beh = os.path.join(ctx.wd, "beh_%s.ndjson" % key)
-        r = vlib.tlc("MCLexer", lexer_cfg(e, k, ALPHABETS[an], invs), "%s_%s" % (ctx.prop, key), workers=workers, beh_out=beh, timeout=3 * 3600)
-        r.update({"beh_path": beh, "N": k, "e": e, "alphabet": an, "samples": []})
+        ke = k + ALPHABET_EXTRA.get(an, 0)
+        r = vlib.tlc("MCLexer", lexer_cfg(e, ke, ALPHABETS[an], invs), "%s_%s" % (ctx.prop, key), workers=workers, beh_out=beh, timeout=3 * 3600)
+        r.update({"beh_path": beh, "N": ke, "e": e, "alphabet": an, "samples": []})
         return key, r
     with cf.ThreadPoolExecutor(max_workers=par) as ex:
         for key, r in ex.map(one, [(e, an) for e in evals for an in names]):
@@ -269,13 +274,16 @@ def merge_rules(stats):
             out[k] = out.get(k, 0) + v
     return out
 
-def grammar_check(ctx, cats, n_quick, n_thorough, opts, evals=EVALS, invs=None, level="model_checking", extra_cov=None, profiles=("debug", "release"), lexer=None, sem=None, compose=None, extra_jobs=None, unopt_jobs=None, machine=None):
+def grammar_check(ctx, cats, n_quick, n_thorough, opts, evals=EVALS, invs=None, level="model_checking", extra_cov=None, profiles=("debug", "release"), lexer=None, sem=None, compose=None, extra_jobs=None, unopt_jobs=None, machine=None, focus=None):
     prop = ctx.prop
     opt0 = opts[0] if isinstance(opts, list) else opts
     invs = invs if invs is not None else GRAMMAR_INV.get(prop, [])
     vlib.vocab_json()
     n_of = (lambda e: n_quick.get(e, n_quick["*"])) if ctx.quick() else (lambda e: n_thorough.get(e, n_thorough["*"]))
     models = run_grammar_models(ctx, evals, n_of, invs)
+    if focus:
+        fn_ = focus["quick"] if ctx.quick() else focus["thorough"]
+        models.update(run_grammar_models(ctx, [e for e in evals if e in focus.get("evals", evals)], (lambda e: fn_), invs, sub=focus["sub"]))
     if lexer:
         models.update(run_lexer_models(ctx, evals, lexer["alphabets"], lexer["k_quick"] if ctx.quick() else lexer["k_thorough"], lexer.get("invs")))
     if compose:
@@ -596,14 +604,14 @@ def c01(ctx):
     return grammar_check(ctx, {"panic", "abort", "hang"}, {"*": 4}, {"*": 6, "f64": 6}, extra_jobs=nested_agg_jobs(ctx), unopt_jobs=unopt_shape_jobs, opts=
                          [{"assignments": 2, "full_placeholders": True, "event_every": 50, "event_cap": 2000, "reject_suffixes": 2, "mutations": 3 if q else 12},
                           {"assignments": 1, "boundary_pool": True, "full_placeholders": True, "max_assign": 200 if q else 4000, "event_every": 500, "event_cap": 1000, "compose_assign": 6 if q else 40}],
-                         invs=[], lexer={"alphabets": ["lit", "kw1", "kw2", "kw3", "ops", "sup"], "k_quick": 3, "k_thorough": 5},
+                         invs=[], lexer={"alphabets": ["lit", "kw1", "kw2", "kw3", "ops", "sup", "shift"], "k_quick": 3, "k_thorough": 5},
                          compose={"quick": (3, 3), "thorough": (4, 4), "chains": {"quick": (4, 14, 100), "thorough": (150, 20, 110)}})
 
 def c03(ctx):
     nm = 700 if ctx.quick() else 12000
     near = lambda profile: ([base_job(ctx, "nearmiss", "%s_nearmiss_%s" % (profile, e), profile, e=e, n=nm, seed=ctx.seed, event_every=1, event_cap=nm) for e in EVALS] if profile == "debug" else [])
     return grammar_check(ctx, {"ok_on_reject", "err_on_defined", "ast"}, {"*": 5}, {"*": 6, "f64": 7}, extra_jobs=near, opts= {"assignments": 2, "event_every": 100, "event_cap": 2000, "nontrivial_min_ops": 1, "reject_suffixes": 2, "parser_events": True},
-                         lexer={"alphabets": ["lit", "kw1", "kw2", "kw3", "ops", "sup"], "k_quick": 3, "k_thorough": 5})
+                         lexer={"alphabets": ["lit", "kw1", "kw2", "kw3", "ops", "sup", "shift"], "k_quick": 3, "k_thorough": 5})
 
 def c04(ctx):
     # second pass: in eval_i64 (and on eval_number's Integers) two groupings of + - * differ only in whether an intermediate
@@ -612,7 +620,8 @@ def c04(ctx):
                          [{"assignments": 3, "event_every": 100, "event_cap": 2000, "nontrivial_min_ops": 2, "parser_events": True},
                           {"assignments": 1, "boundary_pool": True, "full_placeholders": True, "max_assign": 150 if ctx.quick() else 3000, "event_every": 1000, "event_cap": 500,
                            "nontrivial_min_ops": 2, "only_models": ["i64", "num"]}],
-                         compose={"quick": (3, 3), "thorough": (4, 4), "join": {"quick": (2, 3), "thorough": (3, 4)}}, machine={"evals": ["f64", "i64"], "quick": 4, "thorough": 6})
+                         compose={"quick": (3, 3), "thorough": (4, 4), "join": {"quick": (2, 3), "thorough": (3, 4)}}, machine={"evals": ["f64", "i64"], "quick": 4, "thorough": 6},
+                         extra_jobs=chain_jobs(ctx, EVALS))
 
 def c12(ctx):
     return grammar_check(ctx, {"meta_jux", "ok_on_reject", "ast"}, {"*": 5}, {"*": 6, "f64": 7},
@@ -627,7 +636,7 @@ def c13(ctx):
 def c14(ctx):
     return grammar_check(ctx, {"value", "meta_ans", "ok_on_reject", "ast"}, {"*": 4}, {"*": 5, "f64": 6},
                          {"assignments": 2, "full_placeholders": True, "extras": ["ans"], "event_every": 200, "event_cap": 1500, "nontrivial_min_ops": 1, "reject_suffixes": 1},
-                         invs=["NoJuxAfter", "NoJuxBefore"])
+                         invs=["NoJuxAfter", "NoJuxBefore"], focus={"sub": "KArgs", "quick": 6, "thorough": 7})
 
 def c20(ctx):
     return grammar_check(ctx, {"meta_subst", "ast"}, {"*": 5, "f64": 6, "num": 6}, {"*": 6, "f64": 7},
@@ -643,13 +652,13 @@ def c06(ctx):
     return grammar_check(ctx, {"value", "ok_on_semantic_err", "err_on_defined", "profile_diff", "panic", "abort"}, {"*": 5}, {"*": 6},
                          {"assignments": 1, "boundary_pool": True, "full_placeholders": True, "max_assign": 700 if ctx.quick() else 6000,
                           "event_every": 500, "event_cap": 2000, "nontrivial_min_ops": 1, "scope": SCOPE_C06}, evals=["i64"], invs=[],
-                         sem={"w_quick": 6, "w_thorough": 8, "invs": ("C06Exact",)}, compose={"quick": (4, 3), "thorough": (4, 4), "chains": {"quick": (6, 8, 40), "thorough": (200, 10, 60)}, "join": {"quick": (3, 3), "thorough": (3, 4)}})
+                         extra_jobs=chain_jobs(ctx, ["i64"]), sem={"w_quick": 6, "w_thorough": 8, "invs": ("C06Exact",)}, compose={"quick": (4, 3), "thorough": (4, 4), "chains": {"quick": (6, 8, 40), "thorough": (200, 10, 60)}, "join": {"quick": (3, 3), "thorough": (3, 4)}})
 
 def c09(ctx):
     return grammar_check(ctx, {"value", "ok_on_semantic_err", "err_on_defined", "profile_diff", "panic", "abort"}, {"*": 5}, {"*": 6},
                          {"assignments": 1, "boundary_pool": True, "full_placeholders": True, "max_assign": 700 if ctx.quick() else 6000,
                           "event_every": 500, "event_cap": 2000, "nontrivial_min_ops": 1, "scope": SCOPE_C09}, evals=["num"], invs=[],
-                         sem={"w_quick": 6, "w_thorough": 8, "invs": ("C09IntegerWhenFits", "C09Rounding")}, compose={"quick": (3, 3), "thorough": (4, 4), "chains": {"quick": (6, 8, 40), "thorough": (200, 10, 60)}, "join": {"quick": (3, 3), "thorough": (3, 4)}})
+                         extra_jobs=chain_jobs(ctx, ["num"]), sem={"w_quick": 6, "w_thorough": 8, "invs": ("C09IntegerWhenFits", "C09Rounding")}, compose={"quick": (3, 3), "thorough": (4, 4), "chains": {"quick": (6, 8, 40), "thorough": (200, 10, 60)}, "join": {"quick": (3, 3), "thorough": (3, 4)}})
 
 def base_job(ctx, mode, tag, profile, **kw):
     j = {"mode": mode, "vocab": os.path.join(WORK, "vocab.json"), "shard": 0, "nshards": 1, "start": 0,
@@ -925,6 +934,7 @@ def c05(ctx):
         js = replay_jobs(ctx, None, profile, models, {"assignments": 1, "boundary_pool": True, "full_placeholders": True, "max_assign": 600 if q else 8000,
                                                         "event_every": 500, "event_cap": 2000, "nontrivial_min_ops": 1, "profile": profile, "scope": SCOPE_C05})
         js += replay_jobs(ctx, None, profile + "_fc", {"fclass": fr}, {"profile": profile, "event_every": 0})
+        js += chain_jobs(ctx, ["f64"])(profile)
         return js
     f, s = run_jobs(ctx, jobs)
     sv = [(k, r["violated"], r["log"]) for k, r in list(models.items()) + [("MCFloat", fr)] if r["violated"]]
@@ -939,7 +949,12 @@ def c07(ctx):
     return grammar_check(ctx, {"value", "ok_on_semantic_err", "err_on_defined", "profile_diff", "panic", "abort"}, {"*": 5}, {"*": 6},
                          {"assignments": 1, "boundary_pool": True, "full_placeholders": True, "max_assign": 700 if q else 8000,
                           "event_every": 500, "event_cap": 2000, "nontrivial_min_ops": 1, "scope": SCOPE_C07}, evals=["dec"], invs=[], compose={"quick": (4, 3), "thorough": (4, 4), "chains": {"quick": (6, 8, 40), "thorough": (200, 10, 60)}, "join": {"quick": (3, 3), "thorough": (3, 4)}},
-                         sem={"dec": {"quick": (2, 1, 3, 3), "thorough": (2, 2, 4, 1)}, "invs": ("C07Exact",)})
+                         sem={"dec": {"quick": (2, 1, 3, 3), "thorough": (2, 2, 4, 1)}, "invs": ("C07Exact",)}, extra_jobs=chain_jobs(ctx, ["dec"]))
+
+def chain_jobs(ctx, evals):
+    """long left-leaning chains of one precedence level (30-70 terms): grouping by associativity beyond any token bound"""
+    n = 300 if ctx.quick() else 20000
+    return lambda profile: [base_job(ctx, "chains", "%s_chains_%s" % (profile, e), profile, e=e, n=n, seed=ctx.seed, event_every=25, event_cap=60) for e in evals]
 
 def cpx_fn_jobs(ctx, profile, _memo={}):
     """the function sweep of C10 restricted to eval_complex (every spelling on the argument samples, the boundary grids, powers of negative real bases)"""
